@@ -31,6 +31,7 @@ pub const CHECKS: &[CheckDef] = &[
     CheckDef { id: "C13", quick_runs: 700, thorough_runs: 40_000, level: "fault_enumeration", title: "deterministic and resumable exploration" },
     CheckDef { id: "C14", quick_runs: 5000, thorough_runs: 80_000, level: "exploration", title: "exploration terminates and never repeats" },
     CheckDef { id: "C16", quick_runs: 1500, thorough_runs: 20_000, level: "exploration", title: "iterations and models are isolated" },
+    CheckDef { id: "C17", quick_runs: 5000, thorough_runs: 150_000, level: "exploration", title: "thread_local! / lazy_static! semantics" },
     CheckDef { id: "C18", quick_runs: 3000, thorough_runs: 100_000, level: "exploration", title: "yielding spin loops progress and lose no exit outcome" },
     CheckDef { id: "C19", quick_runs: 1000, thorough_runs: 40_000, level: "exploration", title: "exploration controls and limits" },
     CheckDef { id: "C15", quick_runs: 1500, thorough_runs: 60_000, level: "exploration", title: "preemption bound is sound and monotone" },
@@ -165,6 +166,7 @@ pub fn generate(check: &str, tier: &str, seed: u64, run: u64) -> Case {
                 }
             }
         }
+        "C17" => gen_tls_lazy(&mut rng),
         "C18" => {
             let never = rng.chance(1, 6);
             if never {
@@ -290,6 +292,20 @@ pub fn judge(check: &str, tier: &str, case: &Case, seed: u64, run: u64) -> CaseR
             opts.o2 = true;
             opts.o3_must_classes = vec![FailClass::Race];
             opts.o3_may_classes = vec![FailClass::Race, leak];
+        }
+        "C17" => {
+            // every third program runs with a scheduling point inside the lazy initialisers
+            // (racing initialisations); completeness is then not demanded (the yield has loom's
+            // special scheduling semantics), validity and life cycle are
+            let yields = run % 3 == 0;
+            crate::interp::set_lazy_init_yields(yields);
+            opts.o2 = true;
+            opts.tls_lazy = true;
+            opts.o3_must_classes = vec![FailClass::Race];
+            opts.o3_may_classes = vec![FailClass::Race];
+            if !yields {
+                opts.o1 = Some(MachineCfg::must());
+            }
         }
         "C18" => {
             let never = case.program.threads.iter().flatten().any(|o| matches!(o, Op::Await { v, .. } | Op::AwaitY { v, .. } if *v == crate::gen::NEVER));
